@@ -485,6 +485,8 @@ mod hint;
 mod stdlib;
 pub mod util;
 pub mod values;
+#[cfg(starlark_verif)]
+pub mod verif_hooks;
 pub mod wasm;
 
 pub mod pagable;
